@@ -55,7 +55,7 @@ For each change i (1..{n}) create the directory {out}/<i>-<short-slug>/ containi
   * demonstration.md - a concrete input (a mimium program, input samples, a sequence of API calls or of source edits...) and what is observed WITHOUT the change vs WITH the change, showing that the property is violated with the change and holds without it. Execute it for real (e.g. a small throw-away Rust test/example inside the worktree that calls the library, or the command line tool `cargo run -p mimium-cli -- <file.mmm> --output-format csv --times N` - look at crates/bin/mimium-cli for the options, WASM backend is the default, the VM is selected by `--backend vm`), and paste the actual outputs. Include the exact demo program/test source as separate files in the directory so that it can be re-run;
   * meta.json - {{"property": "{prop}", "slug": ..., "files_changed": [...], "mechanism": one sentence, "needs_to_manifest": one sentence saying what specific input/sequence/timing is needed, "why_tests_pass": one sentence, "demonstrated": true/false, "tests_pass": true/false, "test_command": ...}}.
 After writing the patch for change i, verify: (a) it compiles; (b) the existing test suite passes with it: run `cargo nextest run --workspace --no-fail-fast --test-threads 4 --offline` (fallback `cargo test --workspace --no-fail-fast --offline`) in the worktree - all tests must pass (there are 358; the first build takes several minutes; no network is available, always pass --offline); if a test fails, pick a different change. (c) the demonstration fails with the change and passes without it. Then `git checkout -- .` (and delete throw-away files) before starting the next change, so every patch is relative to the clean HEAD.
-When all changes are done: make sure the worktree is clean (`git status`), delete the build output (`rm -rf {wt}/target`) and finish with a short report listing the changes (slug, file, one-line mechanism, what it needs to manifest, demonstrated yes/no, tests pass yes/no). The machine is shared and busy: builds are slow, be patient, never kill processes you did not start, and use at most 4 parallel jobs (`-j 4`) for cargo builds.
+When all changes are done: make sure the worktree is clean (`git status`), delete the build output (`rm -rf {wt}/target`) and finish with a short report listing the changes (slug, file, one-line mechanism, what it needs to manifest, demonstrated yes/no, tests pass yes/no). The machine is shared and busy: builds are slow, be patient, never kill processes you did not start, and use at most 4 parallel jobs (`--build-jobs 4` for nextest, `-j 4` for cargo build/test) for cargo builds. Disk space is scarce: run `export CARGO_PROFILE_DEV_DEBUG=0 CARGO_PROFILE_TEST_DEBUG=0` in every shell before any cargo command (builds without debug info are several times smaller), build nothing in release mode, and do not create additional copies of the worktree.
 """
 os.makedirs("/tmp/seedprompts", exist_ok=True)
 fn = f"/tmp/seedprompts/{prop}-r{rnd}.txt"
